@@ -286,6 +286,8 @@ pub struct World {
     pub twins: BTreeMap<usize, Twin>,
     pub twin_failure: Option<Failure>,
     pub twin_checks: u64,
+    /// identity listed in the group's ExternalSendersExt at creation (C16)
+    pub external_sender: Option<(SignatureSecretKey, SigningIdentity)>,
 }
 
 pub struct Twin {
@@ -355,6 +357,7 @@ impl World {
             twins: BTreeMap::new(),
             twin_failure: None,
             twin_checks: 0,
+            external_sender: None,
         }
     }
 
@@ -508,6 +511,11 @@ impl World {
         let t = self.now();
         let mut ext = ExtensionList::new();
         ext.set(Extension::new(EXT_TYPE.into(), vec![1, 2, 3]));
+        if let Some((_, id)) = &self.external_sender {
+            use mls_rs::extension::MlsExtension;
+            let es = mls_rs::extension::built_in::ExternalSendersExt::new(vec![id.clone()]);
+            ext.set(es.into_extension().expect("external senders ext"));
+        }
         let party = &mut self.parties[p];
         let g = guard(|| party.client.group_builder()?.with_now_time(t).with_group_context_extensions(ext).build())?;
         self.group_id = g.group_id().to_vec();
@@ -720,6 +728,7 @@ impl World {
                 }
                 Ok(())
             }
+            Ok(ReceivedMessage::Proposal(_)) if f.kind == FlightKind::Proposal && f.sender == usize::MAX => Ok(()),
             Ok(ReceivedMessage::Proposal(d)) if f.kind == FlightKind::Proposal => {
                 use mls_rs::group::ProposalSender;
                 if d.sender != ProposalSender::Member(f.sender_leaf) || d.authenticated_data != f.aad {
